@@ -155,7 +155,10 @@ fn push_cfgs(
                 "C16" => rng.chance(1, 3),
                 _ => rng.chance(1, 10),
             };
+            // (the C10 exploration set is frozen: no further random draws for focus "C10")
             eci = if (focus == "C02" || focus == "C11") && rng.chance(1, 6) {
+                *rng.pick(&ECI_LIST)
+            } else if focus != "C10" && focus != "C02" && focus != "C11" && rng.chance(1, 8) {
                 *rng.pick(&ECI_LIST)
             } else {
                 -1
